@@ -59,7 +59,19 @@
                  model and on the implementation ([C17_trailing_tab_refuted]: the TAB of a line end inside a
                  component that wraps stays in its name).
 
-   NOT proved: the blank-on-both-sides comment variant, text mode at document level.  These are decided on every run by the metamorphic monitor of checks/c17.py on the
+   padded comment (Proofs/EditPad*.v) `word [- c -] next`: the blank between a word or number and what follows
+                 replaced by blank + block comment + blank (also `word [- c -]next`, longer runs of U+0020 on
+                 either side): the step text gains a blank, so - as for the trailing edit - events are related
+                 up to U+0020 runs ([fwr]); names, aliases, notes, units, text values, section names and metadata
+                 KEYS are read through Text::text_trimmed and are equal.  A third relational pass ([psim]: a blank
+                 token after a word replaced by a GAP of blank and comment tokens) through every parser function,
+                 block splitting, documents: [C17_padded_comment_events(_fm)], [C17_padded_comment_recipe(_fm)].
+                 Places: outside braces, not in the VALUE of a metadata line (the value is read through str::trim
+                 only and does change: [C17_padded_meta_value_refuted]; the monitor does not judge that place); the
+                 blank that is lengthened must end with U+0020 ([C17_padded_tab_refuted]); inside braces the
+                 glued spelling changes an ADVANCED_UNITS quantity ([C17_padded_brace_refuted]).
+
+   NOT proved: text mode at document level.  It is decided on every run by the metamorphic monitor of checks/c17.py on the
    implementation (text-mode readings included), the model being held to the implementation on the
    edited texts by the L-lex/L-ev correspondence. *)
 From Coq Require Import Permutation.
@@ -700,9 +712,9 @@ Definition line_end (tb : list tok) : Prop := tb = [] \/ exists n r, tb = n :: r
 
 (* The statement of C17 on the model.  NOT a theorem here: it is decided on every run by the
    metamorphic monitor on the implementation (checks/c17.py), and the model is compared with the
-   implementation on the edited texts.  (The blank-on-both-sides comment variant in step text and
-   trailing blanks on the fence lines of a front matter are monitored too; the latter is
-   [C17_fence_blind].) *)
+   implementation on the edited texts.  (The padded comment `word [- c -] next` and trailing blanks on the
+   fence lines of a front matter are monitored too; the former is [C17_padded_comment_events] below,
+   the latter [C17_fence_blind].) *)
 Definition C17_full_statement : Prop :=
   forall (cfg : pcfg) (s : str),
     (* line endings: every input without a backslash or a lone carriage return *)
@@ -801,7 +813,8 @@ Print Assumptions C17_same_events_valid.
    the first conjunct ([C17_crlf_events]), the trailing comment / trailing spaces
    ([C17_trailing_comment_events(_fm)], [C17_trailing_edits_events]; hypothesis that the edited text has
    no new front-matter fence), the block comment after a word or number token
-   ([C17_mid_comment_events]), extra lines ([C17_extra_line_events(_fm)], inserted line not "---"). *)
+   ([C17_mid_comment_events]; with blanks around the comment [C17_padded_comment_events]: outside metadata
+   values, the blank run ending with U+0020), extra lines ([C17_extra_line_events(_fm)], inserted line not "---"). *)
 Definition C17_full_statement_v : Prop :=
   forall (cfg : pcfg) (s : str),
     (no_backslash s = true -> no_lone_cr s = true -> ev_equiv_v (events U cfg (crlf s)) (events U cfg s))
@@ -1374,3 +1387,335 @@ Theorem C17_strip_crlf :
     EditAnalysis.drop_cr (Analysis.strip_comments (crlf s)) = EditAnalysis.drop_cr (Analysis.strip_comments s).
 Proof. exact (EditAnalysis.strip_crlf U gen_special_breaks gen_eol_breaks). Qed.
 Print Assumptions C17_strip_crlf.
+
+(* ---------------------------------------------------------------- a padded block comment: `word [- c -] next` *)
+(* The blank between a word (or number) and what follows it replaced by blank + block comment + blank; also the
+   comment glued to what follows (`word [- c -]next`), longer runs of U+0020 on either side.  The text assembled
+   without the comment then holds a blank more (`word  next`): as for the trailing edit, step and paragraph text
+   is related up to runs of U+0020 ([fwr]), while names, aliases, notes, units, text values, section names and
+   metadata keys - read through Text::text_trimmed - are EQUAL (Proofs/EditPad*.v).
+
+   [psim m l1 l2]: the right token list is the left one where a blank token that stands directly after a word or
+   number token, outside braces and not in the value of a metadata line ([pmode]: [gap_ok]), is replaced by a GAP -
+   blank and block comment tokens, a blank token first - whose blanks concatenated are the text of the replaced
+   token with U+0020s inserted before a U+0020 ([gapl]).  [qsim]: the same without places (what a function that is
+   handed a token list needs).  Both runs stand before a blank token wherever one of them does, so they are in
+   step throughout: one relation on the remaining tokens ([pany]); a paragraph line starts without a gap ([pnog]),
+   a block at the first token of a line ([pstart]). *)
+From CL Require Proofs.EditPadDefs Proofs.EditPadPrim Proofs.EditPadFun Proofs.EditPadStep Proofs.EditPadSplit Proofs.EditPadDoc.
+
+(* lexer: the tokens of the source [a ++ b] and of the edited text; [x1] lengthens the blank token [ws] that ends
+   [a], [x2] is a blank token of its own *)
+Theorem C17_padded_lex :
+  forall a b c x1 x2 off p wd ws tb' d y,
+    no_close c = true -> EditTrailDefs.sp32 x1 -> EditTrailDefs.sp32 x2 ->
+    lex_at U a off = Some (p ++ [wd; ws]) -> b = d :: y -> is_lex_ws U d = false -> lex_at U b (off + blen a) = Some tb' ->
+    is_single_word_tok (kind wd) = true -> kind ws = KWs -> mode_after MOut p = MOut ->
+    EditPadDoc.lmode_after EditPadDefs.LStart p <> EditPadDefs.LVal ->
+    (x1 ++ x2 = [] \/ exists u, tstr ws = u ++ [32]) ->
+    exists ts2, lex_at U (a ++ b) off = Some ((p ++ [wd; ws]) ++ tb')
+                /\ lex_at U (a ++ (x1 ++ block_comment_text c ++ x2) ++ b) off = Some ts2
+                /\ EditPadDefs.pline ((p ++ [wd; ws]) ++ tb') ts2.
+Proof. exact (EditPadDoc.pad_tokens U gen_special_breaks gen_eol_breaks gen_blank_ws). Qed.
+Print Assumptions C17_padded_lex.
+
+(* the text builder: token lists that differ by gaps render to [spins]-related strings, equally blank ... *)
+Theorem C17_padded_text :
+  forall cfg o1 o2 l1 l2,
+    EditPadDefs.qsim l1 l2 -> OR (EditTrailDefs.trw false) (text_of cfg o1 l1) (text_of cfg o2 l2).
+Proof. exact EditPadPrim.qsim_text. Qed.
+Print Assumptions C17_padded_text.
+
+(* ... which the name / alias / note / unit / text-value / section-name / metadata-key reading does not see:
+   [C17_trailing_text_trimmed] *)
+
+(* the three components, a gap anywhere between the words of the name, the alias, the note, after a one-word
+   component, inside `&(...)` *)
+Theorem C17_padded_components :
+  forall cfg,
+    EditTrailDefs.WL EditPadDefs.pany (orel EditTrailStep.crel) (ingredient_p cfg) (ingredient_p cfg) EditPadDefs.pany
+    /\ EditTrailDefs.WL EditPadDefs.pany (orel EditTrailStep.crel) (cookware_p cfg) (cookware_p cfg) EditPadDefs.pany
+    /\ EditTrailDefs.WL EditPadDefs.pany (orel EditTrailStep.crel) (timer_p cfg) (timer_p cfg) EditPadDefs.pany.
+Proof. intro cfg. repeat split; [apply EditPadStep.ingredient_pp | apply EditPadStep.cookware_pp | apply EditPadStep.timer_pp]. Qed.
+Print Assumptions C17_padded_components.
+
+(* the metadata line: the key up to blank runs, the VALUE in lock step (no gap stands there) *)
+Theorem C17_padded_metadata_entry :
+  forall cfg,
+    HJ (EditTrailDefs.Sw (EditPadFun.pL EditPadDefs.LStart)) (metadata_entry cfg) (metadata_entry cfg)
+       (fun o1 s1 o2 s2 => orel EditPadFun.mdp o1 o2 /\ EditTrailDefs.Sw EditPadDefs.pany s1 s2).
+Proof. exact EditPadFun.metadata_entry_p. Qed.
+Print Assumptions C17_padded_metadata_entry.
+
+(* any block, block splitting and the block loop *)
+Theorem C17_padded_block :
+  forall cfg blk1 blk2 evs1 evs2 old,
+    EditPadStep.pstart blk1 blk2 -> EditTrailDefs.evw evs1 evs2 ->
+    OR EditTrailDefs.evw (run_block blk1 evs1 (parse_block cfg old)) (run_block blk2 evs2 (parse_block cfg old)).
+Proof. exact EditPadStep.block_p. Qed.
+Print Assumptions C17_padded_block.
+
+Theorem C17_padded_blocks :
+  forall cfg f1 f2 ts1 ts2 old evs1 evs2,
+    EditPadDefs.pline ts1 ts2 -> EditTrailDefs.evw evs1 evs2 ->
+    OR EditTrailDefs.evw (blocks_loop cfg f1 ts1 old evs1) (blocks_loop cfg f2 ts2 old evs2).
+Proof. exact EditPadDoc.blocks_p. Qed.
+Print Assumptions C17_padded_blocks.
+
+(* DOCUMENT level.  [a | b] is a token boundary of the source [a ++ b]: [a] ends with a word or number token [wd]
+   and a blank token [ws], [b] starts with a character that is not blank space (so [ws] is the whole blank run;
+   [b] is not empty: at the end of a line the edit is the trailing one).  Inserted at the boundary:
+   [x1 ++ [-c-] ++ x2], [x1] and [x2] made of U+0020 - `word [- c -] next` is [x1 = []], [x2 = " "]; the glued
+   spelling `word [- c -]next` is [x1 = x2 = []]; `word  [- c -]  next` is [x1 = " "], [x2 = "  "].
+   Places: outside braces ([mode_after MOut p = MOut]); not in the value of a metadata line
+   ([lmode_after LStart p <> LVal]: [p] does not end in a line whose first token is `>>` after its first colon) -
+   step text, paragraph text, component names, aliases, notes, after a one-word component, section names,
+   metadata KEYS.  When a blank is added the blank run must end with U+0020.  The hypothesis on the edited source
+   is needed as for [C17_mid_comment_events] (a block comment may hold fence lines). *)
+Theorem C17_padded_comment_events :
+  forall cfg a b c x1 x2 p wd ws tb' d y,
+    p_strict_escape cfg = false -> no_close c = true -> EditTrailDefs.sp32 x1 -> EditTrailDefs.sp32 x2 ->
+    parse_frontmatter cfg (a ++ b) = None -> parse_frontmatter cfg (a ++ (x1 ++ block_comment_text c ++ x2) ++ b) = None ->
+    lex_at U a 0 = Some (p ++ [wd; ws]) -> b = d :: y -> is_lex_ws U d = false -> lex_at U b (blen a) = Some tb' ->
+    is_single_word_tok (kind wd) = true -> kind ws = KWs -> mode_after MOut p = MOut ->
+    EditPadDoc.lmode_after EditPadDefs.LStart p <> EditPadDefs.LVal ->
+    (x1 ++ x2 = [] \/ exists u, tstr ws = u ++ [32]) ->
+    ev_equiv_v (events U cfg (a ++ (x1 ++ block_comment_text c ++ x2) ++ b)) (events U cfg (a ++ b)).
+Proof.
+  intros cfg a b c x1 x2 p wd ws tb' d y Hs Hc H1 H2 F1 F2 La Eb Hd Lb Kw Ks Hm Hl Hsp. apply OR_fwr_equiv; [exact Hs|].
+  apply (EditPadDoc.pad_events U cfg gen_special_breaks gen_eol_breaks gen_blank_ws a b c x1 x2 p wd ws tb' d y); assumption.
+Qed.
+Print Assumptions C17_padded_comment_events.
+
+Theorem C17_padded_comment_events_fm :
+  forall cfg s fm a b c x1 x2 p wd ws tb' d y,
+    p_strict_escape cfg = false -> no_close c = true -> EditTrailDefs.sp32 x1 -> EditTrailDefs.sp32 x2 ->
+    parse_frontmatter cfg s = Some fm -> cook_text fm = a ++ b ->
+    lex_at U a (cook_off fm) = Some (p ++ [wd; ws]) -> b = d :: y -> is_lex_ws U d = false ->
+    lex_at U b (cook_off fm + blen a) = Some tb' ->
+    is_single_word_tok (kind wd) = true -> kind ws = KWs -> mode_after MOut p = MOut ->
+    EditPadDoc.lmode_after EditPadDefs.LStart p <> EditPadDefs.LVal ->
+    (x1 ++ x2 = [] \/ exists u, tstr ws = u ++ [32]) ->
+    ev_equiv_v (events U cfg (take_bytes s (cook_off fm) ++ a ++ (x1 ++ block_comment_text c ++ x2) ++ b)) (events U cfg s).
+Proof.
+  intros cfg s fm a b c x1 x2 p wd ws tb' d y Hs Hc H1 H2 F C La Eb Hd Lb Kw Ks Hm Hl Hsp. apply OR_fwr_equiv; [exact Hs|].
+  apply (EditPadDoc.pad_events_fm U cfg gen_special_breaks gen_eol_breaks gen_blank_ws s fm a b c x1 x2 p wd ws tb' d y); assumption.
+Qed.
+Print Assumptions C17_padded_comment_events_fm.
+
+(* CooklangParser::parse: the same normal form [rnorm] of the recipe ("up to whitespace inside step text"), the same
+   validity, the same panic site if any, and EQUAL metadata maps ([same_parse_w]); hypotheses on the oracles as for
+   the trailing edit ([C17_analysis_wblind]) *)
+Theorem C17_padded_comment_recipe :
+  forall ac cfg ci_key yaml_ok find_iq unit_class x Y ystr yeqb yaml a b c x1 x2 p wd ws tb' d y,
+    p_strict_escape cfg = false -> no_close c = true -> EditTrailDefs.sp32 x1 -> EditTrailDefs.sp32 x2 ->
+    parse_frontmatter cfg (a ++ b) = None -> parse_frontmatter cfg (a ++ (x1 ++ block_comment_text c ++ x2) ++ b) = None ->
+    lex_at U a 0 = Some (p ++ [wd; ws]) -> b = d :: y -> is_lex_ws U d = false -> lex_at U b (blen a) = Some tb' ->
+    is_single_word_tok (kind wd) = true -> kind ws = KWs -> mode_after MOut p = MOut ->
+    EditPadDoc.lmode_after EditPadDefs.LStart p <> EditPadDefs.LVal ->
+    (x1 ++ x2 = [] \/ exists u, tstr ws = u ++ [32]) ->
+    EditAnalysis.crlf_blind yaml_ok -> EditAnalysis.crlf_blind yaml ->
+    EditAnalysis.src_no_text_mode U cfg x (a ++ b) -> EditTrailDoc.iq_ok x find_iq ->
+    EditTrailDoc.same_parse_w ac U cfg ci_key yaml_ok find_iq unit_class x Y ystr yeqb yaml
+      (a ++ b) (a ++ (x1 ++ block_comment_text c ++ x2) ++ b).
+Proof.
+  intros ac cfg ci_key yaml_ok find_iq unit_class x Y ystr yeqb yaml a b c x1 x2 p wd ws tb' d y
+         Hs Hc H1 H2 F1 F2 La Eb Hd Lb Kw Ks Hm Hl Hsp By Bm Hmo Hq.
+  apply EditTrailDoc.parse_wblind; try assumption.
+  apply (EditPadDoc.pad_events U cfg gen_special_breaks gen_eol_breaks gen_blank_ws a b c x1 x2 p wd ws tb' d y); assumption.
+Qed.
+Print Assumptions C17_padded_comment_recipe.
+
+Theorem C17_padded_comment_recipe_fm :
+  forall ac cfg ci_key yaml_ok find_iq unit_class x Y ystr yeqb yaml s fm a b c x1 x2 p wd ws tb' d y,
+    p_strict_escape cfg = false -> no_close c = true -> EditTrailDefs.sp32 x1 -> EditTrailDefs.sp32 x2 ->
+    parse_frontmatter cfg s = Some fm -> cook_text fm = a ++ b ->
+    lex_at U a (cook_off fm) = Some (p ++ [wd; ws]) -> b = d :: y -> is_lex_ws U d = false ->
+    lex_at U b (cook_off fm + blen a) = Some tb' ->
+    is_single_word_tok (kind wd) = true -> kind ws = KWs -> mode_after MOut p = MOut ->
+    EditPadDoc.lmode_after EditPadDefs.LStart p <> EditPadDefs.LVal ->
+    (x1 ++ x2 = [] \/ exists u, tstr ws = u ++ [32]) ->
+    EditAnalysis.crlf_blind yaml_ok -> EditAnalysis.crlf_blind yaml ->
+    EditAnalysis.src_no_text_mode U cfg x s -> EditTrailDoc.iq_ok x find_iq ->
+    EditTrailDoc.same_parse_w ac U cfg ci_key yaml_ok find_iq unit_class x Y ystr yeqb yaml
+      s (take_bytes s (cook_off fm) ++ a ++ (x1 ++ block_comment_text c ++ x2) ++ b).
+Proof.
+  intros ac cfg ci_key yaml_ok find_iq unit_class x Y ystr yeqb yaml s fm a b c x1 x2 p wd ws tb' d y
+         Hs Hc H1 H2 F C La Eb Hd Lb Kw Ks Hm Hl Hsp By Bm Hmo Hq.
+  apply EditTrailDoc.parse_wblind; try assumption.
+  apply (EditPadDoc.pad_events_fm U cfg gen_special_breaks gen_eol_breaks gen_blank_ws s fm a b c x1 x2 p wd ws tb' d y); assumption.
+Qed.
+Print Assumptions C17_padded_comment_recipe_fm.
+
+(* the hypotheses are satisfiable: "Add @sea " | "salt{} and stir" with " [- c -] " made of the blank that is there,
+   the comment and [x2 = " "] - the boundary lies INSIDE the component name; all extensions on *)
+Definition pd_a : str := [65;100;100;32;64;115;101;97;32].
+Definition pd_b : str := [115;97;108;116;123;125;32;97;110;100;32;115;116;105;114].
+Definition pd_c : str := [32;99;32].
+
+Example C17_padded_hypotheses_satisfiable :
+  exists p wd ws tb' d y,
+    lex_at U pd_a 0 = Some (p ++ [wd; ws]) /\ pd_b = d :: y /\ is_lex_ws U d = false /\ lex_at U pd_b (blen pd_a) = Some tb'
+    /\ is_single_word_tok (kind wd) = true /\ kind ws = KWs /\ mode_after MOut p = MOut
+    /\ EditPadDoc.lmode_after EditPadDefs.LStart p <> EditPadDefs.LVal
+    /\ (exists u, tstr ws = u ++ [32])
+    /\ no_close pd_c = true /\ EditTrailDefs.sp32 [] /\ EditTrailDefs.sp32 [32]
+    /\ parse_frontmatter cfg_all (pd_a ++ pd_b) = None
+    /\ parse_frontmatter cfg_all (pd_a ++ ([] ++ block_comment_text pd_c ++ [32]) ++ pd_b) = None
+    /\ EditAnalysis.src_no_text_mode U cfg_all x_all (pd_a ++ pd_b)
+    /\ EditTrailDoc.iq_ok x_all (fun _ => None).
+Proof.
+  eexists [_; _; _], _, _, _, _, _. split; [vm_compute; reflexivity|]. split; [reflexivity|]. split; [vm_compute; reflexivity|].
+  split; [vm_compute; reflexivity|]. split; [reflexivity|]. split; [reflexivity|]. split; [reflexivity|].
+  split; [vm_compute; discriminate|]. split; [exists []; reflexivity|]. split; [reflexivity|]. split; [reflexivity|]. split; [reflexivity|].
+  split; [vm_compute; reflexivity|]. split; [vm_compute; reflexivity|].
+  split; [apply EditAnalysis.src_no_text_mode_dec; vm_compute; reflexivity|].
+  right. split.
+  - intros e s1 s2 _. exact I.
+  - intros s b0 a0 H. discriminate H.
+Qed.
+
+(* what the theorems say there, twice: "Add @sea [- c -] salt{} and [- d -] stir" against "Add @sea salt{} and stir" -
+   the ingredient is called "sea salt" on both sides, the step text differs by one blank *)
+Definition pd_src : str := pd_a ++ pd_b.
+Definition pd_ed2 : str :=
+  [65;100;100;32;64;115;101;97;32] ++ block_comment_text [32;99;32] ++ [32;115;97;108;116;123;125;32;97;110;100;32]
+  ++ block_comment_text [32;100;32] ++ [32;115;116;105;114].
+
+Example C17_padded_instance :
+  ev_equiv_v (events U cfg_all pd_ed2) (events U cfg_all pd_src)
+  /\ match events U cfg_all pd_src, events U cfg_all pd_ed2 with
+     | Done e1, Done e2 =>
+         existsb (fun e => match e with PIngr _ _ n _ _ _ => str_eqb n [115;101;97;32;115;97;108;116] | _ => false end) (map proj e1) = true
+         /\ existsb (fun e => match e with PIngr _ _ n _ _ _ => str_eqb n [115;101;97;32;115;97;108;116] | _ => false end) (map proj e2) = true
+         /\ existsb (fun e => match e with PText t => str_eqb t [32;97;110;100;32;115;116;105;114] | _ => false end) (map proj e1) = true
+         /\ existsb (fun e => match e with PText t => str_eqb t [32;97;110;100;32;32;115;116;105;114] | _ => false end) (map proj e2) = true
+     | _, _ => False
+     end.
+Proof. split; [vm_compute; split; reflexivity | vm_compute; repeat split; reflexivity]. Qed.
+
+(* ... and from the theorem: one padded comment, CooklangParser::parse *)
+Example C17_padded_recipe_instance :
+  forall ci_key find_iq unit_class,
+    EditTrailDoc.iq_ok x_all find_iq ->
+    EditTrailDoc.same_parse_w Analysis.cfgF U cfg_all ci_key (fun _ => true) find_iq unit_class x_all
+      (list N) (fun s => s) (fun _ _ => true) (fun _ => None)
+      (pd_a ++ pd_b) (pd_a ++ ([] ++ block_comment_text pd_c ++ [32]) ++ pd_b).
+Proof.
+  intros ci_key find_iq unit_class Hq.
+  refine (C17_padded_comment_recipe Analysis.cfgF cfg_all ci_key (fun _ => true) find_iq unit_class x_all
+            (list N) (fun s => s) (fun _ _ => true) (fun _ => None)
+            pd_a pd_b pd_c [] [32] _ _ _ _ _ _ eq_refl eq_refl eq_refl eq_refl _ _ _ eq_refl _ _ _ _ _ _ _ _ _ _ Hq).
+  - vm_compute. reflexivity.
+  - vm_compute. reflexivity.
+  - instantiate (3 := [_; _; _]). vm_compute. reflexivity.
+  - vm_compute. reflexivity.
+  - vm_compute. reflexivity.
+  - reflexivity.
+  - reflexivity.
+  - reflexivity.
+  - vm_compute. discriminate.
+  - right. exists []. reflexivity.
+  - intros a b _. reflexivity.
+  - intros a b _. reflexivity.
+  - apply EditAnalysis.src_no_text_mode_dec. vm_compute. reflexivity.
+Qed.
+
+(* THE PLACES ARE NEEDED.  (1) The VALUE of a metadata line is read through str::trim only: ">> k: a " | "b" with
+   "[- c -] " inserted reads "a  b".  Every other hypothesis of [C17_padded_comment_events] holds; the
+   implementation does the same (replayed through harness/src/bin/recipe.rs).  The statement of the property speaks
+   of whitespace inside STEP TEXT, the monitor's padded edit is not judged inside metadata values
+   (probe_value_spaced of checks/c17_edits.py). *)
+Definition pv_a : str := [62;62;32;107;58;32;97;32].
+Definition pv_b : str := [98].
+
+Theorem C17_padded_meta_value_refuted :
+  exists p wd ws tb' d y,
+    parse_frontmatter cfg_plain (pv_a ++ pv_b) = None
+    /\ parse_frontmatter cfg_plain (pv_a ++ ([] ++ block_comment_text pd_c ++ [32]) ++ pv_b) = None
+    /\ lex_at U pv_a 0 = Some (p ++ [wd; ws]) /\ pv_b = d :: y /\ is_lex_ws U d = false /\ lex_at U pv_b (blen pv_a) = Some tb'
+    /\ is_single_word_tok (kind wd) = true /\ kind ws = KWs /\ mode_after MOut p = MOut
+    /\ (exists u, tstr ws = u ++ [32])
+    /\ EditPadDoc.lmode_after EditPadDefs.LStart p = EditPadDefs.LVal
+    /\ ~ ev_equiv_v (events U cfg_plain (pv_a ++ ([] ++ block_comment_text pd_c ++ [32]) ++ pv_b)) (events U cfg_plain (pv_a ++ pv_b)).
+Proof.
+  eexists [_; _; _; _; _], _, _, _, _, _. split; [vm_compute; reflexivity|]. split; [vm_compute; reflexivity|].
+  split; [vm_compute; reflexivity|]. split; [reflexivity|]. split; [vm_compute; reflexivity|]. split; [vm_compute; reflexivity|].
+  split; [reflexivity|]. split; [reflexivity|]. split; [reflexivity|]. split; [exists []; reflexivity|]. split; [vm_compute; reflexivity|].
+  intro H.
+  assert (E : exists e1 e2, events U cfg_plain (pv_a ++ ([] ++ block_comment_text pd_c ++ [32]) ++ pv_b) = Done e1
+                            /\ events U cfg_plain (pv_a ++ pv_b) = Done e2 /\ observed e1 <> observed e2).
+  { eexists. eexists. split; [vm_compute; reflexivity|]. split; [vm_compute; reflexivity|]. vm_compute. discriminate. }
+  destruct E as (e1 & e2 & E1 & E2 & D). rewrite E1, E2 in H. destruct H as [H _]. exact (D H).
+Qed.
+Print Assumptions C17_padded_meta_value_refuted.
+
+(* (2) The blank that is lengthened must end with U+0020: "@sea<TAB>" | "salt{}" with "[- c -] " inserted names the
+   ingredient "sea<TAB> salt" - Text::text_trimmed collapses runs of U+0020 only (as in [C17_trailing_tab_refuted];
+   same on the implementation). *)
+Definition pt_a : str := [64;115;101;97;9].
+Definition pt_b : str := [115;97;108;116;123;125].
+
+Theorem C17_padded_tab_refuted :
+  exists p wd ws tb' d y,
+    parse_frontmatter cfg_plain (pt_a ++ pt_b) = None
+    /\ parse_frontmatter cfg_plain (pt_a ++ ([] ++ block_comment_text pd_c ++ [32]) ++ pt_b) = None
+    /\ lex_at U pt_a 0 = Some (p ++ [wd; ws]) /\ pt_b = d :: y /\ is_lex_ws U d = false /\ lex_at U pt_b (blen pt_a) = Some tb'
+    /\ is_single_word_tok (kind wd) = true /\ kind ws = KWs /\ mode_after MOut p = MOut
+    /\ EditPadDoc.lmode_after EditPadDefs.LStart p <> EditPadDefs.LVal
+    /\ tstr ws = [9]
+    /\ ~ ev_equiv_v (events U cfg_plain (pt_a ++ ([] ++ block_comment_text pd_c ++ [32]) ++ pt_b)) (events U cfg_plain (pt_a ++ pt_b)).
+Proof.
+  eexists [_], _, _, _, _, _. split; [vm_compute; reflexivity|]. split; [vm_compute; reflexivity|].
+  split; [vm_compute; reflexivity|]. split; [reflexivity|]. split; [vm_compute; reflexivity|]. split; [vm_compute; reflexivity|].
+  split; [reflexivity|]. split; [reflexivity|]. split; [reflexivity|]. split; [vm_compute; discriminate|]. split; [reflexivity|].
+  intro H.
+  assert (E : exists e1 e2, events U cfg_plain (pt_a ++ ([] ++ block_comment_text pd_c ++ [32]) ++ pt_b) = Done e1
+                            /\ events U cfg_plain (pt_a ++ pt_b) = Done e2 /\ observed e1 <> observed e2).
+  { eexists. eexists. split; [vm_compute; reflexivity|]. split; [vm_compute; reflexivity|]. vm_compute. discriminate. }
+  destruct E as (e1 & e2 & E1 & E2 & D). rewrite E1, E2 in H. destruct H as [H _]. exact (D H).
+Qed.
+Print Assumptions C17_padded_tab_refuted.
+
+(* (3) Inside braces.  A padded comment between the words of a text value or of a unit leaves them equal
+   (Text::text_trimmed), and between a number and its unit too when a blank follows the comment; the GLUED
+   spelling does not: with ADVANCED_UNITS "@x{1 " | "kg}" reads the number 1 with the unit kg, "@x{1 [- c -]kg}"
+   the text value "1 kg" (the value must end with a blank token: quantity.rs parse_advanced_quantity).  Same on the
+   implementation.  The statement puts the comment "between words", the monitor reports places inside braces
+   without judging them. *)
+Definition pb_a : str := [64;120;123;49;32].
+Definition pb_b : str := [107;103;125].
+
+Theorem C17_padded_brace_refuted :
+  exists p wd ws tb' d y,
+    parse_frontmatter cfg_all (pb_a ++ pb_b) = None
+    /\ parse_frontmatter cfg_all (pb_a ++ ([] ++ block_comment_text pd_c ++ []) ++ pb_b) = None
+    /\ lex_at U pb_a 0 = Some (p ++ [wd; ws]) /\ pb_b = d :: y /\ is_lex_ws U d = false /\ lex_at U pb_b (blen pb_a) = Some tb'
+    /\ is_single_word_tok (kind wd) = true /\ kind ws = KWs
+    /\ EditPadDoc.lmode_after EditPadDefs.LStart p <> EditPadDefs.LVal
+    /\ mode_after MOut p = MIn
+    /\ ~ ev_equiv_v (events U cfg_all (pb_a ++ ([] ++ block_comment_text pd_c ++ []) ++ pb_b)) (events U cfg_all (pb_a ++ pb_b)).
+Proof.
+  eexists [_; _; _], _, _, _, _, _. split; [vm_compute; reflexivity|]. split; [vm_compute; reflexivity|].
+  split; [vm_compute; reflexivity|]. split; [reflexivity|]. split; [vm_compute; reflexivity|]. split; [vm_compute; reflexivity|].
+  split; [reflexivity|]. split; [reflexivity|]. split; [vm_compute; discriminate|]. split; [reflexivity|].
+  intro H.
+  assert (E : exists e1 e2, events U cfg_all (pb_a ++ ([] ++ block_comment_text pd_c ++ []) ++ pb_b) = Done e1
+                            /\ events U cfg_all (pb_a ++ pb_b) = Done e2 /\ observed e1 <> observed e2).
+  { eexists. eexists. split; [vm_compute; reflexivity|]. split; [vm_compute; reflexivity|]. vm_compute. discriminate. }
+  destruct E as (e1 & e2 & E1 & E2 & D). rewrite E1, E2 in H. destruct H as [H _]. exact (D H).
+Qed.
+Print Assumptions C17_padded_brace_refuted.
+
+(* inside braces with blanks on both sides: text value "@x{a [- c -] pinch}", unit "@x{1%fl [- c -] oz}", number and
+   unit "@x{1 [- c -] kg}" - the same events *)
+Definition same_proj (s1 s2 : str) : Prop :=
+  match events U cfg_all s1, events U cfg_all s2 with
+  | Done e1, Done e2 => map proj e1 = map proj e2
+  | _, _ => False
+  end.
+Example C17_padded_brace_instances :
+  same_proj [64;120;123;97;32;112;105;110;99;104;125] ([64;120;123;97;32] ++ block_comment_text pd_c ++ [32;112;105;110;99;104;125])
+  /\ same_proj [64;120;123;49;37;102;108;32;111;122;125] ([64;120;123;49;37;102;108;32] ++ block_comment_text pd_c ++ [32;111;122;125])
+  /\ same_proj [64;120;123;49;32;107;103;125] ([64;120;123;49;32] ++ block_comment_text pd_c ++ [32;107;103;125]).
+Proof. split; [|split]; vm_compute; reflexivity. Qed.
